@@ -38,9 +38,12 @@ WhyRun(rec, run) ==
        ELSE LET kind == rec.fail[run.ekey]
                 sameKey == {f \in fs : f[2] = run.ekey}
                 mode == IF FieldOfKey(run.ekey) \in DOMAIN run.modes THEN run.modes[FieldOfKey(run.ekey)] ELSE "plain" IN
+            \* what a client is sent for this error (graphql.SanitizeError) carries text that was not marked safe
+            (IF run.leak THEN {"client_text_carries_unsafe_error_text"} ELSE {}) \cup
             (IF kind \in {"safe", "wrapped"}
              THEN (IF run.epath # "" THEN {"safe_error_with_path"} ELSE {})
                   \cup (IF run.ekind # kind THEN {"inner_text_leaked_or_wrong_kind"} ELSE {})
+
              ELSE (IF mode \in BatchModes
                    THEN (IF \E f \in sameKey : NoIdx(f[1]) = NoIdx(run.epath) THEN {} ELSE {"wrong_error_path"})
                    ELSE (IF \E f \in sameKey : f[1] = run.epath THEN {} ELSE {"wrong_error_path"})))
